@@ -165,6 +165,10 @@ func (s *xpoaSchedule) GetLocalLeader(timestamp int64, round int64, storage []by
 	if blockPos < 0 || blockPos > s.blockNum || pos >= int64(len(localValidators)) {
 		return ""
 	}
+	// a timestamp before the epoch gives a negative position
+	if pos < 0 {
+		return ""
+	}
 	return localValidators[pos]
 }
 
